@@ -304,10 +304,15 @@ fn run(name: &PathBuf, debugger_opts: Option<debugger::Options>, minimal: bool) 
                 }
 
                 // Read to byte buffer
-                let mut file = File::open(&name).into_diagnostic()?;
-                let f_size = file.metadata().unwrap().len();
+                // Never more than one word beyond what memory can hold: the loader rejects such
+                // an image as too long, however large the file is
+                const MAX_BYTES: u64 = 2 * (0x10000 + 1);
+                let file = File::open(&name).into_diagnostic()?;
+                let f_size = file.metadata().unwrap().len().min(MAX_BYTES);
                 let mut buffer = Vec::with_capacity(f_size as usize);
-                file.read_to_end(&mut buffer).into_diagnostic()?;
+                file.take(MAX_BYTES)
+                    .read_to_end(&mut buffer)
+                    .into_diagnostic()?;
 
                 if buffer.len() % 2 != 0 {
                     bail!("File is not aligned to 16 bits")
